@@ -515,3 +515,12 @@ package container
 //@   loop 0: invariant c == old(c) && c.socket == old(c.socket) && c.socket.Socket == old(c.socket.Socket) && c.socket.Socket.UnixConn == old(c.socket.Socket.UnixConn) && c.socket.encoder == old(c.socket.encoder)
 //@   loop 1: invariant -1 <= rangeindex && rangeindex < len(rep.FileToClose) && c == old(c) && c.socket == old(c.socket) && c.socket.Socket == old(c.socket.Socket) && c.socket.Socket.UnixConn == old(c.socket.Socket.UnixConn) && c.socket.encoder == old(c.socket.encoder)
 //@   loop 1: invariant forall k int :: 0 <= k && k <= rangeindex && rep.FileToClose[k] != nil ==> FC.closed[rep.FileToClose[k]]
+
+// ---- host side: tearing an environment down (C11, C12): the control socket is closed first (any call in
+// flight fails), then the container init is killed and reaped; Build destroys the half-built environment
+// on every failure after the init was started ----
+//@ func container.(*container).Destroy props C11 C12
+//@   arith int
+//@   requires c != nil && c.socket != nil && c.socket.Socket != nil && c.socket.Socket.UnixConn != nil && c.process != nil
+//@   assigns PR.killed, PR.waited
+//@   ensures PR.killed[c.process] && PR.waited[c.process]
